@@ -164,10 +164,11 @@ def check(ctx):
             return None
         # ---- R1
         pats = []
-        for c in walk_no_nested(pre):
-            r_ = regex_of(c, pre)
-            if r_ is not None and r_[1] in ('finditer', 'split', 'findall', 'search', 'match', 'compile'):
-                pats.append((c, r_[0]))
+        for g_ in flow.local_reach(model, pre, limit=2):      # the pre-pass and the helpers it calls (a scanner may live in one)
+            for c in walk_no_nested(g_):
+                r_ = regex_of(c, g_)
+                if r_ is not None and r_[1] in ('finditer', 'split', 'findall', 'search', 'match', 'compile'):
+                    pats.append((c, r_[0]))
         scanners = []
         for c, pat in pats:
             lits_ = [a_ for a_ in regex_alternatives(pat) if a_]
